@@ -165,6 +165,11 @@ fn wired_step(w: &mut Wired, cfg: &Cfg, op: &Op, t: usize, m: f64, got: &Out) ->
 }
 
 fn check_seq(cfg: &Cfg, ops: &[Op], out: &mut JobOut) {
+    check_seq_via(cfg, ops, None, out)
+}
+
+/// `via`: at that step the composite (not the parts) is serialized + restored / replaced by its clone
+fn check_seq_via(cfg: &Cfg, ops: &[Op], via: Option<(usize, Via)>, out: &mut JobOut) {
     out.stats.states += 1;
     out.stats.traces += 1;
     out.stats.transitions += 2 * ops.len() as u64;
@@ -186,6 +191,17 @@ fn check_seq(cfg: &Cfg, ops: &[Op], out: &mut JobOut) {
             }
             t += 1;
             m = m.max(op.maxmag());
+            if let Some((at, v)) = via {
+                if at == i {
+                    s = match v {
+                        Via::Serde => {
+                            let bytes = s.ser().expect("harness: serialize");
+                            s.de(&bytes).expect("harness: deserialize")
+                        }
+                        _ => s.dup(),
+                    };
+                }
+            }
             let got = s.apply(op);
             match wired_step(&mut w, cfg, op, t, m, &got) {
                 Some(Ok(())) => evals += 1,
@@ -203,7 +219,12 @@ fn check_seq(cfg: &Cfg, ops: &[Op], out: &mut JobOut) {
                 out.stats.nontrivial += 1;
             }
             if let Some((i, got, why)) = bad {
-                out.fail(Violation::new(PROP, cfg, &ops[..=i], "composite-differs-from-parts").obs(out2s(&got)).exp("the documented combination of separately constructed public parts".into()).det(why));
+                let mut v = Violation::new(PROP, cfg, &ops[..=i], "composite-differs-from-parts").obs(out2s(&got)).exp("the documented combination of separately constructed public parts".into()).det(why);
+                if let Some((at, how)) = via {
+                    v.detail.push_str(&format!(" [the composite was {} before input {}]", if how == Via::Serde { "serialized with bincode and restored" } else { "replaced by its clone" }, at + 1));
+                    v.extra.insert("checkpoint".into(), format!("{}@{}", if how == Via::Serde { "serde" } else { "clone" }, at));
+                }
+                out.fail(v);
             }
         }
         Err(_) => out.fail(Violation::new(PROP, cfg, ops, "panic").obs("panic".into()).exp("outputs".into())),
@@ -381,6 +402,50 @@ pub fn run(ctx: &Ctx) -> CheckResult {
         out
     });
     res.absorb(merge_jobs(outs));
+    // larger periods and the documented defaults on default streams of 3n+5 inputs, every step compared;
+    // also with the composite serialized + restored / cloned at the full window and one step later
+    if !res.out.failed() {
+        let mut big: Vec<Cfg> = vec![];
+        for &n in &[9usize, 14, 20, 64, 257] {
+            big.push(Cfg::pm(Kind::Bb, n, 2.0));
+            big.push(Cfg::pm(Kind::Kc, n, 2.0));
+            big.push(Cfg::pm(Kind::Ce, n, 3.0));
+            big.push(Cfg::p1(Kind::Atr, n));
+            big.push(Cfg::p1(Kind::Cci, n));
+            big.push(Cfg::p2(Kind::SlowStoch, n, 3));
+        }
+        big.push(Cfg::p3(Kind::Macd, 12, 26, 9));
+        big.push(Cfg::p3(Kind::Ppo, 12, 26, 9));
+        big.push(Cfg::p2(Kind::SlowStoch, 14, 3));
+        let outs = par_run(ctx, &big, |_, cfg| {
+            let mut out = JobOut::default();
+            let n = cfg.max_period();
+            let len = 3 * n + 5;
+            for pat in 0..2usize {
+                let ops: Vec<Op> = (0..len)
+                    .map(|i| {
+                        let x = if pat == 0 { 50.0 + ((i * 37) % 101) as f64 * 0.37 + (i % 7) as f64 * 0.013 } else { 20.0 + ((i / 3) % 5) as f64 * 0.25 };
+                        if cfg.kind.has_scalar() && !cfg.kind.bar_native() {
+                            Op::S(x)
+                        } else {
+                            Op::B(Bar { o: x, h: x * 1.01, l: x * 0.99, c: x * (0.995 + 0.005 * (i % 3) as f64), v: 1.0 + (i % 4) as f64 })
+                        }
+                    })
+                    .collect();
+                check_seq(cfg, &ops, &mut out);
+                for via in [Via::Serde, Via::Clone] {
+                    for at in [1usize, n / 2, n, n + 1, 2 * n + 1] {
+                        if out.failed() {
+                            return out;
+                        }
+                        check_seq_via(cfg, &ops, Some((at, via)), &mut out);
+                    }
+                }
+            }
+            out
+        });
+        res.absorb(merge_jobs(outs));
+    }
     if !res.out.failed() {
         let mut o = JobOut::default();
         check_defaults(&mut o);
@@ -388,6 +453,6 @@ pub fn run(ctx: &Ctx) -> CheckResult {
     }
     res.extra.insert("composite_configurations".into(), json!(jobs.len()));
     res.rule = "case = (composite configuration, stream): the real composite and separately constructed public parts (SMA, SD, EMA, FastStochastic, TrueRange, ATR, Minimum, Maximum, MAD) are fed the same stream; at every step the composite's outputs must equal the documented combination of the parts within tau(t)*M (variances for the Bollinger half-width, times the condition number for CCI/PPO, gated at 1e6); non-trivial = stream longer than the window".into();
-    res.bounds = format!("BB/KC/CE periods {singles:?} x multipliers {{2,0,0.5,3}}, ATR, CCI, SLOW_STOCH (n x {{1,3}}), MACD/PPO over 6 period triples; all 9^{ds} mixed-sign/rough scalar streams and all 10^{db} valid-bar streams, all 6^(depth+1) streams mixing scalars and bars on one instance for ATR/KC/SLOW_STOCH/BB/MACD, all 10^(depth-1) streams of unvalidated bars for SLOW_STOCH/KC/CE/ATR/CCI (BB, MACD and PPO are driven with bars as well as scalars; streams with reset(), composite and parts reset together) (side multipliers 1-2 levels shallower); the positive scalar / bar alphabets in a 2^-60 price unit for periods {{1,2,3,5}}");
+    res.bounds = format!("BB/KC/CE periods {singles:?} x multipliers {{2,0,0.5,3}}, ATR, CCI, SLOW_STOCH (n x {{1,3}}), MACD/PPO over 6 period triples; all 9^{ds} mixed-sign/rough scalar streams and all 10^{db} valid-bar streams, all 6^(depth+1) streams mixing scalars and bars on one instance for ATR/KC/SLOW_STOCH/BB/MACD, all 10^(depth-1) streams of unvalidated bars for SLOW_STOCH/KC/CE/ATR/CCI (BB, MACD and PPO are driven with bars as well as scalars; streams with reset(), composite and parts reset together) (side multipliers 1-2 levels shallower); the positive scalar / bar alphabets in a 2^-60 price unit for periods {{1,2,3,5}}; periods 9, 14, 20, 64, 257 and the documented defaults on two default streams of 3n+5 inputs, also with the composite serialized + restored / cloned at 5 positions");
     res
 }
